@@ -259,7 +259,7 @@ Proof.
 Qed.
 Print Assumptions lexical_scoping_parameters_refuted.
 
-(* ---- finding F215: "what a function body defines is local to it" is FALSE of the faithful model - op_t::compile gives a
+(* ---- finding F216: "what a function body defines is local to it" is FALSE of the faithful model - op_t::compile gives a
    SCOPE body a bind_scope_t, whose define() writes into the enclosing scope as well, when the function is defined
    (the model's single table).  Witnesses: vt = 1; fn(va) = (vt = 7; vt + 1); fn(2) + vt gives 15 (lexically 8 + 1 = 9), and
    fn(va) = (vy = 7; vy + va); vy gives 7 although fn was never called and vy is unknown outside it. ---- *)
